@@ -145,6 +145,7 @@ Definition dec_rshape (z : Z) : rshape :=
   else if z =? 5 then QOptRef else if z =? 6 then QResUnitErr else if z =? 7 then QResEmpty else if z =? 8 then QSliceMut
   else if z =? 9 then QPod else if z =? 10 then QRef else if (z =? 11) || (z =? 13) then QResU8Err      (* 13: std::result::Result<T, u8> *)
   else if z =? 14 then QOpt                                                                               (* std::option::Option<T> *)
+  else if z =? 15 then QResUnitErr                        (* AliasRes<T, ()> in a trait marked #[int_result(AliasRes)]: one more spelling of Result *)
   else QResIoErr.
 Fixpoint dec_args (n : nat) (l : list Z) : list (ashape * leaf) :=
   match n, l with
